@@ -252,6 +252,9 @@ def run(ctx, res):
                     (x["callee"], " -> ".join(x["chain"])), "%s:%d" % (x["term"]["span"]["file"], x["term"]["span"]["line"]))
     res.floor("BLOCKING", "blocking call sites reachable from eval", len(sites), 2)
 
+    # "it doesn't crash": the no-panic inventory over everything the two sandbox entry points can execute
+    from .. import panicinv as PI
+    PI.run(ctx, res, ["sandbox"], floor_fns=560, floor_sites=380, label="PANIC-INV")
     # native loops and native recursion inside one interpreter step are outside the tick budget: inventory them
     # (cheap, so it runs in both tiers)
     from . import c25_thorough
